@@ -332,6 +332,28 @@ func runC18(r *simkit.Run, c Cfg) {
 		})
 	} else {
 		nreq := tp.Range(2, 8, "nreq")
+		// a register request built from an address list in which one entry
+		// is no address: the constructor refuses, or what it builds returns
+		// the addresses it was given - all of them
+		if tp.Chance(1, 3, "badAddr") {
+			id := KeyedIdentity(KeyTypes[tp.Choose(len(KeyTypes), "badAddr.key")], 1, "V1")
+			good := []string{c09Addrs[0].s, c09Addrs[3].s, c09Addrs[1].s}[:1+tp.Choose(3, "badAddr.n")]
+			pos := tp.Choose(len(good)+1, "badAddr.pos")
+			list := append(append(append([]string{}, good[:pos]...), "not-a-multiaddr"), good[pos:]...)
+			data, err := model.MakeRegisterRequest(id.ID, id.Priv, list)
+			if err == nil {
+				rec, rerr := model.ReadRegisterRequest(data)
+				var back []string
+				if rerr == nil {
+					for _, a := range rec.Addrs {
+						back = append(back, a.String())
+					}
+				}
+				r.Violate("c18.accepted", "the constructor built a register request from the address list %q without error; read back: %q (%v)", list, back, rerr)
+			} else {
+				r.Probe("constructor-refused-unparsable-address")
+			}
+		}
 		r.Go("client", func(t *simkit.Task) {
 			for i := 0; i < nreq && !r.Failed(); i++ {
 				t.Yield("op")
